@@ -15,18 +15,21 @@ def gen_C01(rng, tier):
     kinds = G.LABEL_KINDS_QUICK if tier == 'quick' else G.LABEL_KINDS_ALL
     n = 2500 if tier == 'quick' else 30000
     ex = (G.exhaustive_histories('D', 'int', 2, 3, True) + G.exhaustive_histories('D', 'none', 2, 4, False)) if tier != 'quick' else []
-    return G.histories(rng, n, ['D'], kinds, maxops=30 if tier == 'quick' else 40, reject_p=0.0) + ex
+    big = [G.big_history(rng, 'D', rng.choice(['none', 'int', 'str'])) for _ in range(24 if tier == 'quick' else 80)]
+    return G.histories(rng, n, ['D'], kinds, maxops=30 if tier == 'quick' else 40, reject_p=0.0) + ex + big
 
 def gen_C02(rng, tier):
     kinds = G.LABEL_KINDS_QUICK if tier == 'quick' else G.LABEL_KINDS_ALL
     n = 2500 if tier == 'quick' else 30000
     ex = (G.exhaustive_histories('U', 'int', 2, 3, True) + G.exhaustive_histories('U', 'none', 2, 4, False)) if tier != 'quick' else []
-    return G.histories(rng, n, ['U'], kinds, maxops=30 if tier == 'quick' else 40, reject_p=0.0) + ex
+    big = [G.big_history(rng, 'U', rng.choice(['none', 'int', 'str'])) for _ in range(24 if tier == 'quick' else 80)]
+    return G.histories(rng, n, ['U'], kinds, maxops=30 if tier == 'quick' else 40, reject_p=0.0) + ex + big
 
 def gen_C04(rng, tier):
     n = 2500 if tier == 'quick' else 30000
     ex = (G.exhaustive_histories('DM', 'mult', 2, 3, True) + G.exhaustive_histories('UM', 'mult', 2, 3, True)) if tier != 'quick' else []
-    return [G.multi_history(rng, rng.choice(['DM', 'UM']), maxops=30 if tier == 'quick' else 45) for _ in range(n)] + ex
+    huge = [G.huge_multiplicity_history(rng, rng.choice(['DM', 'UM'])) for _ in range(200 if tier == 'quick' else 3000)]
+    return [G.multi_history(rng, rng.choice(['DM', 'UM']), maxops=30 if tier == 'quick' else 45) for _ in range(n)] + ex + huge
 def _rand_double_hex(rng):
     import struct
     r = rng.random()
@@ -39,13 +42,20 @@ def float_cases(rng, k):
     """histories with ARBITRARY double weights (bit patterns): the running total is compared bit for bit with the Flocq model"""
     out = []
     for _ in range(k):
-        cls = rng.choice(['DW', 'UW']); n = rng.randint(1, 5); ops = []
+        cls = rng.choice(['DW', 'UW']); n = rng.randint(1, 5); ops = []; cur = {}
+        key = (lambda i, j: (min(i, j), max(i, j))) if cls == 'UW' else (lambda i, j: (i, j))
         for _ in range(rng.randint(3, 40)):
-            r = rng.random(); i, j = rng.randrange(n), rng.randrange(n)
-            if r < 0.45: ops.append('FA %d %d %s' % (i, j, _rand_double_hex(rng)))
-            elif r < 0.7: ops.append('FS %d %d %s' % (i, j, _rand_double_hex(rng)))
-            elif r < 0.95: ops.append('FR %d %d' % (i, j))
-            else: ops.append('FC')
+            r = rng.random(); i, j = rng.randrange(n), rng.randrange(n); kk = key(i, j)
+            if r < 0.45:
+                h = _rand_double_hex(rng); ops.append('FA %d %d %s' % (i, j, h)); cur.setdefault(kk, h)
+            elif r < 0.7:
+                if kk in cur and rng.random() < 0.35:        # a neighbouring double (1 ulp away, or the other zero): "equal up to noise" is not equal
+                    b = int(cur[kk], 16); h = '%016X' % ((b + rng.choice([1, -1, 2])) % (1 << 64) if b % (1 << 63) not in (0, 0x7FEFFFFFFFFFFFFF) else b ^ (1 << 63))
+                    if (int(h, 16) >> 52) & 0x7FF == 0x7FF: h = cur[kk]
+                else: h = _rand_double_hex(rng)
+                ops.append('FS %d %d %s' % (i, j, h)); cur[kk] = h
+            elif r < 0.95: ops.append('FR %d %d' % (i, j)); cur.pop(kk, None)
+            else: ops.append('FC'); cur = {}
         out.append('WF %s hex %d : %s' % (cls, n, ' ; '.join(ops)))
     return out
 def gen_C05(rng, tier):
@@ -102,7 +112,7 @@ def gen_C07(rng, tier):
     n = 500 if tier == 'quick' else 6000
     kw = dict(reject_p=0.3, reject_force_p=0.5, query_p=0.12, maxops=25)
     kinds = ['none', 'int', 'str'] if tier == 'quick' else G.LABEL_KINDS_ALL
-    out = G.histories(rng, 2 * n, ['D', 'U'], kinds, **kw)
+    out = G.histories(rng, 2 * n, ['D', 'U'], kinds, slb_force_p=0.3, **kw)
     out += [G.multi_history(rng, rng.choice(['DM', 'UM']), **kw) for _ in range(n)]
     out += [G.weighted_history(rng, rng.choice(['DW', 'UW']), **kw) for _ in range(n)]
     # path searches and subgraph extraction with out-of-range arguments (and valid ones in between)
@@ -136,6 +146,11 @@ def gen_C16(rng, tier):
         ops.append('DD')
         for _ in range(rng.randint(0, 3)): ops.append(rng.choice(['R %d %d' % (src, rng.choice(nbrs)), 'A %d %d 1 0' % (rng.randrange(nv), rng.randrange(nv)), 'DD']))
         out.append('%s %s %d : %s' % (cls, lk, nv, ' ; '.join(ops)))
+    # one pair forced hundreds of times (counters of 8 bits and the like), and graphs with 33-70 vertices
+    out += [G.many_copies_history(rng, rng.choice(['D', 'U']), rng.choice(kinds)) for _ in range(16 if tier == 'quick' else 60)]
+    out += [G.big_history(rng, rng.choice(['D', 'U']), rng.choice(kinds)) for _ in range(12 if tier == 'quick' else 40)]
+    # multigraphs: forced duplicates followed by removals and every observer (before removeDuplicateEdges is called)
+    out += [G.multi_history(rng, rng.choice(['DM', 'UM']), maxops=12, force_p=0.35, dd_p=0.05) for _ in range(n // 6)]
     return out
 def _has_forced_dup(c, I):
     # a forced insertion actually created a duplicate: some neighbour-multiset entry or edges() count exceeds 1 at some step
@@ -189,16 +204,42 @@ def route_eq(case):
     if t[0] in ('EQF', 'WF', 'DJF'): return 'float'
     return runner.HARNESS_OF_CLASS.get(t[1] if t[0] in ('EQ', 'CV', 'EL') else t[0])
 
+def cv_big(rng, k):
+    out = []
+    for _ in range(k):
+        cls = rng.choice(['D', 'D', 'U']); lk = rng.choice(['none', 'int']); n = rng.randint(26, 44)
+        es = ['A %d %d %d 0' % (rng.randrange(n), rng.randrange(n), rng.randint(0, 3)) for _ in range(rng.randint(n, 3 * n))]
+        out.append('CV %s %s %d : %s' % (cls, lk, n, ' ; '.join(es)))
+    return out
 def gen_C09(rng, tier):
     n = 1200 if tier == 'quick' else 15000
     kinds = ['none', 'int', 'str'] if tier == 'quick' else G.LABEL_KINDS_ALL
-    out = [G.cv_case(rng, rng.choice(['D', 'U']), rng.choice(kinds)) for _ in range(n)]
+    out = [G.cv_case(rng, rng.choice(['D', 'U']), rng.choice(kinds)) for _ in range(n)] + cv_big(rng, 90 if tier == 'quick' else 300)
     for _ in range(n):
         cls = rng.choice(['D', 'U', 'DM', 'UM', 'DW', 'UW'])
         out.append(G.el_case(rng, cls, rng.choice(kinds) if cls in ('D', 'U') else ('mult' if cls in ('DM', 'UM') else 'dbl')))
     return out
 
+def sub_big(rng, k):
+    out = []
+    for _ in range(k):
+        cls = rng.choice(['D', 'U']); lk = rng.choice(['none', 'int']); n = rng.randint(65, 140)
+        a = rng.randrange(n - 4); S = sorted(set([a] + [min(n - 1, a + rng.randrange(0, 60)) for _ in range(rng.randint(1, 6))]))
+        es = []
+        for v in S:
+            for d in (64, 128):
+                if v + d < n and rng.random() < 0.7: es.append((v, v + d))
+            for u in S:
+                if rng.random() < 0.4: es.append((v, u))
+            if rng.random() < 0.5: es.append((v, rng.randrange(n)))
+        for _ in range(rng.randint(0, 10)): es.append((rng.randrange(n), rng.randrange(n)))
+        rng.shuffle(es)
+        ops = ' ; '.join('A %d %d %d 0' % ((i, j) if rng.random() < 0.5 or cls == 'D' else (j, i)) + () if False else 'A %d %d %d 0' % (((i, j) if (rng.random() < 0.5 or cls == 'D') else (j, i)) + (rng.randint(0, 3),)) for i, j in es)
+        out.append('SUB %s %s %d : %s | %s' % (cls, lk, n, ops, ' '.join(map(str, S))))
+    return out
 def gen_C10(rng, tier):
+    return _gen_C10(rng, tier) + sub_big(rng, 14 if tier == 'quick' else 60)
+def _gen_C10(rng, tier):
     k = 110 if tier == 'quick' else 1500
     kinds = ['none', 'int', 'str'] if tier == 'quick' else G.LABEL_KINDS_ALL
     out = []
@@ -223,7 +264,7 @@ def djf_cases(rng, k):
     import struct
     def w():
         r = rng.random()
-        if r < 0.3: d = rng.choice([0.1, 0.2, 0.3, 0.30000000000000004, 1.0, 0.0, 2.5, 1e-8, 1e16, 123456.789, 5e-324, 0.7, 1e300 / 7])
+        if r < 0.3: d = rng.choice([0.1, 0.2, 0.3, 0.30000000000000004, 1.0, 0.0, -0.0, 2.5, 1e-8, 1e16, 123456.789, 5e-324, 0.7, 1e300 / 7])
         elif r < 0.7: d = rng.uniform(0, 10)
         else: d = rng.uniform(0, 1) * 2.0 ** rng.randint(-60, 60)
         return '%016X' % struct.unpack('<Q', struct.pack('<d', d))[0]
@@ -233,9 +274,19 @@ def djf_cases(rng, k):
         es = ['FA %d %d %s' % (rng.randrange(n), rng.randrange(n), w()) for _ in range(rng.randint(0, 3 * n))]
         out.append('DJF %s hex %d : %s | %d' % (cls, n, ' ; '.join(es), rng.randrange(n)))
     return out
+def djf_overflow_cases(rng, k):
+    """path sums that overflow to +infinity (weights near DBL_MAX), with cycles, loops and layers behind the overflow point: the search must still stop within the bound"""
+    import struct
+    hx = lambda d: '%016X' % struct.unpack('<Q', struct.pack('<d', d))[0]
+    out = []
+    for _ in range(k):
+        cls = rng.choice(['DW', 'UW']); n = rng.randint(3, 8)
+        es = ['FA %d %d %s' % (rng.randrange(n), rng.randrange(n), hx(rng.choice([1.7976931348623157e308, 1e308, 9e307, 1.0, 0.0, 2.5]))) for _ in range(rng.randint(2, 3 * n))]
+        out.append('DJF %s hex %d : %s | %d' % (cls, n, ' ; '.join(es), rng.randrange(n)))
+    return out
 def route_paths(case): return 'float' if case.split(None, 1)[0] in ('DJF', 'WF') else 'paths'
 def gen_C12(rng, tier):
-    return _gen_C12(rng, tier) + djf_cases(rng, 3000 if tier == 'quick' else 40000)
+    return _gen_C12(rng, tier) + djf_cases(rng, 3000 if tier == 'quick' else 40000) + djf_overflow_cases(rng, 200 if tier == 'quick' else 3000)
 def _gen_C12(rng, tier):
     if tier == 'quick':
         return GP.dj_small_exhaustive(rng, 3, 2) + GP.dj_random(rng, 1200, nmax=7, oor_p=0.0) + GP.dj_families(rng, tier) + GP.dj_funnel(rng, 12000) + GP.dj_wide(rng, 12000)
@@ -244,7 +295,8 @@ def _gen_C12(rng, tier):
 def gen_C19(rng, tier):
     k = 400 if tier == 'quick' else 6000
     return GP.family_cases(rng, tier) + GP.dj_families(rng, tier) + GP.random_cases(rng, k, nmax=10, oor_p=0.0) + GP.dj_random(rng, k, nmax=10, oor_p=0.0) \
-        + (GP.all_graph_cases(rng, 'D', 3, pairs_per_graph=1) if tier == 'quick' else GP.all_graph_cases(rng, 'D', 4, pairs_per_graph=1, sample=20000))
+        + (GP.all_graph_cases(rng, 'D', 3, pairs_per_graph=1) if tier == 'quick' else GP.all_graph_cases(rng, 'D', 4, pairs_per_graph=1, sample=20000)) \
+        + djf_cases(rng, 300 if tier == 'quick' else 4000) + djf_overflow_cases(rng, 300 if tier == 'quick' else 4000)
 def adaptive_C19(run_only, rng, tier, log):
     cs = GP.climb_scans(run_only, rng, 24 if tier == 'quick' else 240, log=log)
     log['what'] = 'hill-climb on scans/bound over weighted digraphs (Dijkstra, bound V+E+1) and digraphs (all-predecessor BFS, bound V+E); best ratio reached per kind'
@@ -252,6 +304,7 @@ def adaptive_C19(run_only, rng, tier, log):
 def seg_C11(case, k): return [0, 1] if k in (0, 1) else None
 def seg_C12(case, k): return [0, 1]
 def seg_C19(case, k):
+    if case.startswith('DJF'): return [2]
     if case.startswith('DJ'): return [2]
     return [2] if k in (0, 1) else 'skip'
 def _path_nontrivial(c, I):
@@ -266,10 +319,10 @@ def gen_C13(rng, tier):
     return GI.txt_cases(rng, k) + GI.txtw_cases(rng, k // 2)
 def gen_C14(rng, tier):
     k = 700 if tier == 'quick' else 10000
-    return ['NOFILE x x : '] + GI.bin_cases(rng, k, cuts=False) + GI.binw_cases(rng, k)
+    return ['NOFILE x x : '] + GI.bin_cases(rng, k, cuts=False) + GI.binw_cases(rng, k) + GI.bin_big_cases(rng, 1 if tier == 'quick' else 6)
 def gen_C15(rng, tier):
     k = 120 if tier == 'quick' else 1500
-    return GI.bin_cases(rng, k, cuts=True) + GI.txt_bad_cases(rng, 6 * k)
+    return GI.bin_cases(rng, k, cuts=True) + GI.txt_bad_cases(rng, 6 * k) + GI.bin_big_cases(rng, 2 if tier == 'quick' else 12)
 def io_nontrivial(c, I): return len(c.split(':', 1)[1].strip()) > 8
 
 def gen_C18(rng, tier):
@@ -306,6 +359,9 @@ def gen_C17(rng, tier):
                  (gen_C10, 150), (gen_C11, 250), (gen_C12, 250), (gen_C13, 200), (gen_C14, 150), (gen_C15, 250), (gen_C19, 100)):
         out += _sample(rng, g(rng, 'quick'), n * k)
     out += [c for c in G.histories(rng, 200 * k, ['D', 'U'], ['none', 'int', 'str'], maxops=25, reject_p=0.02, force_p=0.3, dd_p=0.06)]
+    out += [G.multi_history(rng, rng.choice(['DM', 'UM']), maxops=14, force_p=0.35, dd_p=0.05) for _ in range(150 * k)]
+    out += [G.weighted_history(rng, rng.choice(['DW', 'UW']), maxops=14, force_p=0.35, dd_p=0.05) for _ in range(100 * k)]
+    out += [G.big_history(rng, rng.choice(['D', 'U']), 'int') for _ in range(6 * k)] + [G.many_copies_history(rng, rng.choice(['D', 'U']), 'none') for _ in range(4 * k)]
     return out
 CXX_MATRIX = [
     dict(tag='gxx_O0_debugstl', flags=['g++', '-std=c++14', '-O0', '-g', '-D_GLIBCXX_DEBUG', '-D_GLIBCXX_DEBUG_PEDANTIC']),
@@ -370,7 +426,7 @@ PROPS = {
                   'DirectedWeightedGraph or UndirectedWeightedGraph), random graphs to 7 vertices (thorough: 30), zero-weight cycles, ties, layered and grid families; '
                   'findGeodesicsDijkstra on a counting graph type; distances compared exactly with the model (which replays the implementation pop sequence and checks every pop is a '
                   'minimum of the worklist) and with Bellman-Ford on the spec side; the predecessor vector is validated against dist[v] = dist[p] + w(p,v); plus graphs with ARBITRARY non-negative double weights (bit patterns: decimal fractions, ties such as 0.1+0.2 vs 0.30000000000000004, subnormal, 1e16- and 1e299-scale, random exponents -60..60): distances compared BIT FOR BIT with the Flocq model following the implementation pop sequence and with the own schedule of the model, predecessors validated with the rounded addition; non-trivial = >= 2 edges'),
- 'C19': dict(harness='paths', impl_timeout=120, gen=gen_C19, adaptive=adaptive_C19, shrink=shrink_ops, segments=seg_C19, nontrivial=_path_nontrivial, model_name='scan counters of the path-search models',
+ 'C19': dict(harness=['paths', 'float'], route=route_paths, impl_timeout=120, gen=gen_C19, adaptive=adaptive_C19, shrink=shrink_ops, segments=seg_C19, nontrivial=_path_nontrivial, model_name='scan counters of the path-search models',
              histogram=lambda cases: {'bfs_cases': sum(1 for c in cases if c.startswith('PATH')), 'dijkstra_cases': sum(1 for c in cases if c.startswith('DJ'))},
              rule='the number of getOutNeighbours calls made by findVertexPredecessors, findAllVertexPredecessors and findGeodesicsDijkstra on a counting graph type, compared with the '
                   'scan counters of the Coq models and with the bounds V, V+E, V+E+1 (E = total length of all neighbour lists): layered graphs of width 2-3 with up to 8 (thorough 12) '
